@@ -133,9 +133,9 @@ class _Stepper:
     """Runs one writer in its own (untraced, concrete) thread and lets the scheduler advance it one FS operation at a time.
     Only the schedule bits are symbolic; they are consumed by the scheduler in the traced main thread."""
 
-    def __init__(self, fs, actor, dest, data):
+    def __init__(self, fs, actor, dest, data, again=None):
         import threading
-        self.fs, self.actor, self.dest, self.data = fs, actor, dest, data
+        self.fs, self.actor, self.dest, self.data, self.again = fs, actor, dest, data, again
         self.go = threading.Semaphore(0)
         self.back = threading.Semaphore(0)
         self.done = False
@@ -154,9 +154,14 @@ class _Stepper:
         self.go.acquire()
         self.fs.actor = self.actor
         try:
-            with srctools.AtomicWriter(self.dest, is_bytes=True) as f:
+            writer = srctools.AtomicWriter(self.dest, is_bytes=True)
+            with writer as f:
                 f.write(self.data[:2])
                 f.write(self.data[2:])
+            if self.again is not None:      # the class documents that a writer object "can be repeated"
+                with writer as f:
+                    f.write(self.again[:2])
+                    f.write(self.again[2:])
         except OSError as e:
             self.error = e
         except BaseException as e:  # noqa
@@ -193,8 +198,10 @@ def _gated_fs(fs, steppers):
 
 
 def h_two(s0: bool, s1: bool, s2: bool, s3: bool, s4: bool, s5: bool, s6: bool, s7: bool, s8: bool, s9: bool, s10: bool, s11: bool,
-          s12: bool, s13: bool, stale: int, p0: int = -1, p1: int = -1, p2: int = -1) -> None:
-    """Two writers replacing different files of one directory, interleaved at FS-operation boundaries by a symbolic schedule."""
+          s12: bool, s13: bool, stale: int, p0: int = -1, p1: int = -1, p2: int = -1, reuse: bool = False) -> None:
+    """Two writers replacing different files of one directory, interleaved at FS-operation boundaries by a symbolic schedule.
+    With reuse=True the first writer object is used for two consecutive saves (the schedule bits cover the first 14 steps,
+    the rest runs to completion in a fixed order)."""
     import srctools
     from vf.stubs import wfs
     sched = [s0, s1, s2, s3, s4, s5, s6, s7, s8, s9, s10, s11, s12, s13]
@@ -216,7 +223,7 @@ def h_two(s0: bool, s1: bool, s2: bool, s3: bool, s4: bool, s5: bool, s6: bool, 
         for i in range(1, stale + 1):
             fs.put(f"/d/tmp_{i}", b"STALE")
         srctools.Path = wfs.make_path_class(fs)
-        ws = [_Stepper(fs, 0, "/d/a", b"AAAA"), _Stepper(fs, 1, "/d/b", b"BBBB")]
+        ws = [_Stepper(fs, 0, "/d/a", b"AAAA", b"CCCC" if reuse else None), _Stepper(fs, 1, "/d/b", b"BBBB")]
         by_thread = _gated_fs(fs, ws)
         for w in ws:
             by_thread[None] = None
@@ -253,7 +260,7 @@ def h_two(s0: bool, s1: bool, s2: bool, s3: bool, s4: bool, s5: bool, s6: bool, 
             if path.startswith("/d/tmp_"):
                 check(owner is None or owner == actor or op == "open:xb", "a writer operated on the other writer's temporary file", op, path, actor, owner)
         check(errors == [None, None], "a writer failed although no fault was injected", [repr(e) for e in errors])
-        check(fs.read("/d/a") == b"AAAA" and fs.read("/d/b") == b"BBBB", "destinations after both writers finished", fs.read("/d/a"), fs.read("/d/b"))
+        check(fs.read("/d/a") == (b"CCCC" if reuse else b"AAAA") and fs.read("/d/b") == b"BBBB", "destinations after both writers finished", fs.read("/d/a"), fs.read("/d/b"))
         for i in range(1, stale + 1):
             check(fs.read(f"/d/tmp_{i}") == b"STALE", "stale temp of another owner touched", i)
         left = [p for p in fs.listing("/d") if p not in ("/d/a", "/d/b") and fs.read(p) != b"STALE"]
@@ -261,8 +268,8 @@ def h_two(s0: bool, s1: bool, s2: bool, s3: bool, s4: bool, s5: bool, s6: bool, 
 
 
 def h_two_w(s0: bool, s1: bool, s2: bool, s3: bool, s4: bool, s5: bool, s6: bool, s7: bool, s8: bool, s9: bool, s10: bool, s11: bool,
-            s12: bool, s13: bool, stale: int, p0: int = -1, p1: int = -1, p2: int = -1) -> None:
-    h_two(s0, s1, s2, s3, s4, s5, s6, s7, s8, s9, s10, s11, s12, s13, stale, p0, p1, p2)
+            s12: bool, s13: bool, stale: int, p0: int = -1, p1: int = -1, p2: int = -1, reuse: bool = False) -> None:
+    h_two(s0, s1, s2, s3, s4, s5, s6, s7, s8, s9, s10, s11, s12, s13, stale, p0, p1, p2, reuse)
     raise Fail("reached")
 
 
@@ -271,6 +278,7 @@ def obligations(tier):
     single = [{"n_old": a, "n1": b, "n2": c, "stale": st} for (a, b, c) in lens for st in ((0, 1) if tier == "quick" else (0, 1, 2))]
     single += [{"n_old": 1, "n1": 1, "n2": 1, "stale": 1, "text": True}]
     two = [{"stale": st, "p0": a, "p1": b, "p2": c} for st in ((0,) if tier == "quick" else (0, 1)) for a in (0, 1) for b in (0, 1) for c in (0, 1)]
+    two += [{"stale": 0, "p0": a, "p1": b, "p2": c, "reuse": True} for a in (0, 1) for b in (0, 1) for c in (0, 1)]
     return [
         Obl("single", MOD, "h_single", slices=single, budget_s=900, per_path_s=60,
             desc="one writer: crash at any FS operation, one injected fault at any FS operation, body exception at any write; old-or-new, "
